@@ -185,6 +185,119 @@ theorem try_body_aux {code Ob P o fr G pe S c outs eb}
     rw [hforks] at y'
     exact y'
 
+theorem filter_isEmpty_eq_not_any {α} (p : α → Bool) (l : List α) : (l.filter p).isEmpty = !l.any p := by
+  induction l with
+  | nil => rfl
+  | cons x xs ih => by_cases h : p x <;> simp [List.filter, h, ih]
+
+/-- the left operand of `l // r`: an output that is `null`/`false` is dropped (`pop; backtrack`), any
+    other is passed on after setting the register `found`; when `l` is exhausted the machine fails
+    into the `fork` of the `//` with `found` telling whether anything was emitted, and `tail` says
+    what happens then (nothing, the error of `l`, or `r`) -/
+theorem alt_left_aux {code Ol P o fr G pa S c outs el}
+    (y : Yields code Ol P o fr G pa S c outs el) :
+    ∀ {O K : Nat → Prop} {F : List Fork} {pf : Nat} {v : V} {L1 pend sid i : Nat} {f : Frame} {d : Nat}
+      {out2 : List V} {e2 : Option Err} {Rref : Regs} (b bf : Bool),
+    bf = (b || outs.any (fun w => !falsy w)) →
+    G = ⟨pf, .v v :: S, fr, o⟩ :: F →
+    code[pf]? = some (.fork L1) →
+    code[pa]? = some .dup → code[pa+1]? = some (.jumpifnot (pa+5)) → code[pa+2]? = some (.push (.bool true)) →
+    code[pa+3]? = some (.store sid i) → code[pa+4]? = some (.jump pend) →
+    code[pa+5]? = some .pop → code[pa+6]? = some .backtrack →
+    resolve sid fr (fr.length - 1) = some (f, d) →
+    O (f.base + i) → ¬ Ol (f.base + i) → ¬ P (f.base + i) → f.base + i < o →
+    (∀ a, Ol a → O a) → (∀ a, K a → O a ∨ P a) → (∀ a, K a → ¬ Wr Ol o a) → (∀ a, K a → a ≠ f.base + i) →
+    EqOn K Rref c.regs → c.regs (f.base + i) = .v (.bool b) →
+    (∀ R', EqOn K Rref R' → R' (f.base + i) = .v (.bool bf) →
+      Yields code O P o fr F pend S (.fail (⟨pf, .v v :: S, fr, o⟩ :: F) (el.map .plain) R') out2 e2) →
+    Yields code O P o fr F pend S c (outs.filter (fun w => !falsy w) ++ out2) e2 := by
+  induction y with
+  | @done c e' R' hs hf =>
+    intro O K F pf v L1 pend sid i f d out2 e2 Rref b bf hbf hG _ _ _ _ _ _ _ _ _ _ hrl hrP hrlt hO _ hd _ hK hb tail
+    subst hG
+    have hbf' : b = bf := by simpa using hbf.symm
+    subst hbf'
+    have hW : ∀ a, Wr Ol o a → Wr O o a := fun a h => h.elim (fun h => Or.inl (hO a h)) Or.inr
+    have hnw : ¬ Wr Ol o (f.base + i) := by
+      intro h; rcases h with h | h
+      · exact hrl h
+      · omega
+    have hb' : R' (f.base + i) = .v (.bool b) := by rw [← hf _ hnw]; exact hb
+    have := (tail R' (hK.trans (hf.toOn hd)) hb').steps_left hs (hf.mono hW)
+    simpa using this
+  | @out c w ws e' F'' R1 oo cp hF'' hs ho1 hf hn _ ih =>
+    intro O K F pf v L1 pend sid i f d out2 e2 Rref b bf hbf hG hfork k0 k1 k2 k3 k4 k5 k6 hres hrO hrl hrP hrlt hO hk hd hkr hK hb tail
+    subst hG
+    have hW : ∀ a, Wr Ol o a → Wr O o a := fun a h => h.elim (fun h => Or.inl (hO a h)) Or.inr
+    have hnw : ¬ Wr Ol o (f.base + i) := by
+      intro h; rcases h with h | h
+      · exact hrl h
+      · omega
+    have hb1 : R1 (f.base + i) = .v (.bool b) := by rw [← hf _ hnw]; exact hb
+    have hK1 : EqOn K Rref R1 := hK.trans (hf.toOn hd)
+    by_cases hw : falsy w = true
+    · -- dropped: dup; jumpifnot; pop; backtrack
+      have hdrop : Steps code c (.fail (F'' ++ ⟨pf, .v v :: S, fr, o⟩ :: F) none R1) := by
+        refine hs.trans ?_
+        refine .head (c' := .run (pa+1) (.v w :: .v w :: S) (F'' ++ ⟨pf, .v v :: S, fr, o⟩ :: F) false none R1 fr oo cp) (by simp [step, k0]) ?_
+        refine .head (c' := .run (pa+5) (.v w :: S) (F'' ++ ⟨pf, .v v :: S, fr, o⟩ :: F) false none R1 fr oo cp) (by simp [step, k1, hw]) ?_
+        refine .head (c' := .run (pa+6) S (F'' ++ ⟨pf, .v v :: S, fr, o⟩ :: F) false none R1 fr oo cp) (by simp [step, k5]) ?_
+        exact Steps.one (by simp [step, k6])
+      have := ih R1 EqOn.refl b bf (by simpa [hw] using hbf) rfl hfork k0 k1 k2 k3 k4 k5 k6 hres hrO hrl hrP hrlt hO hk hd hkr (by simpa using hK1) (by simpa using hb1) tail
+      have y' := this.steps_left hdrop (hf.mono hW)
+      simpa [List.filter, hw] using y'
+    · -- passed on: dup; jumpifnot; push true; store found; jump END
+      have hw' : falsy w = false := by cases h : falsy w <;> simp_all
+      let R1' := R1.set (f.base + i) (.v (.bool true))
+      have hforks : F'' ++ ⟨pf, .v v :: S, fr, o⟩ :: F = (F'' ++ [⟨pf, .v v :: S, fr, o⟩]) ++ F := by simp
+      have hok : ForksOK code (F'' ++ [⟨pf, .v v :: S, fr, o⟩]) :=
+        hF''.append (.plain (Or.inl ⟨L1, hfork⟩) .nil)
+      have hpass : Steps code c (.run pend (.v w :: S) ((F'' ++ [⟨pf, .v v :: S, fr, o⟩]) ++ F) false none R1' fr oo cp) := by
+        rw [← hforks]
+        refine hs.trans ?_
+        refine .head (c' := .run (pa+1) (.v w :: .v w :: S) (F'' ++ ⟨pf, .v v :: S, fr, o⟩ :: F) false none R1 fr oo cp) (by simp [step, k0]) ?_
+        refine .head (c' := .run (pa+2) (.v w :: S) (F'' ++ ⟨pf, .v v :: S, fr, o⟩ :: F) false none R1 fr oo cp) (by simp [step, k1, hw']) ?_
+        refine .head (c' := .run (pa+3) (.v (.bool true) :: .v w :: S) (F'' ++ ⟨pf, .v v :: S, fr, o⟩ :: F) false none R1 fr oo cp) (by simp [step, k2]) ?_
+        refine .head (c' := .run (pa+4) (.v w :: S) (F'' ++ ⟨pf, .v v :: S, fr, o⟩ :: F) false none R1' fr oo cp) (by simp [step, k3, hres, R1']) ?_
+        exact Steps.one (by simp [step, k4])
+      have hf' : EqOff (Wr O o) c.regs R1' := by
+        intro a ha
+        have hne : a ≠ f.base + i := fun h => ha (Or.inl (h ▸ hrO))
+        rw [hf.mono hW a ha]
+        simp [R1', Regs.set, hne]
+      have hout : (w :: ws).filter (fun w => !falsy w) = w :: ws.filter (fun w => !falsy w) := by
+        simp [List.filter, hw']
+      have hany : bf = true := by simpa [hw'] using hbf
+      rw [hout, List.cons_append]
+      refine .out hok hpass ho1 hf' (fun h => by simp at h) ?_
+      intro R2 h2
+      have hl : EqOn (KeepP Ol P o oo) R1 R2 := by
+        intro a ha
+        have hne : a ≠ f.base + i := by
+          intro h; subst h
+          rcases ha with (ha | ha) | ha
+          · exact hrl ha
+          · exact hrP ha
+          · omega
+        have hin : KeepP O P o oo a := by
+          rcases ha with (ha | ha) | ha
+          · exact Or.inl (Or.inl (hO a ha))
+          · exact Or.inl (Or.inr ha)
+          · exact Or.inr ha
+        rw [← h2 a hin]
+        simp [R1', Regs.set, hne]
+      have hK2 : EqOn K Rref R2 := by
+        intro a ha
+        have hne : a ≠ f.base + i := hkr a ha
+        have hin : KeepP O P o oo a := Or.inl (hk a ha)
+        rw [hK1 a ha, ← h2 a hin]
+        simp [R1', Regs.set, hne]
+      have hb2 : R2 (f.base + i) = .v (.bool true) := by
+        rw [← h2 _ (Or.inl (Or.inl hrO))]; simp [R1', Regs.set]
+      have := ih R2 hl true bf (by simp [hany]) rfl hfork k0 k1 k2 k3 k4 k5 k6 hres hrO hrl hrP hrlt hO hk hd hkr (by simpa using hK2) (by simpa using hb2) tail
+      rw [hforks] at this
+      simpa using this
+
 /-! ## lexical lookup -/
 
 theorem resolve_push (sid : Nat) (x : Frame) (fr : List Frame) (t : Nat) (h : t < fr.length) :
